@@ -143,7 +143,10 @@ theorem leaf_at_root (s : Style Rat) (m : MeasureFn) (av : Size (AvailableSpace 
       out.size =
         (let cl := Size.fo_clamp (((rootKnownDimensions s av).orOpt (NS s av)).unwrapOr
                     ((m Size.none (Acode s av)).add (insetOf s av).sumAxes)) (Spec.minS s av) (Spec.maxS s av)
-         Size.f32Max ⟨cl.width, Num.fmax cl.height ((s.aspectRatio.map fun r => cl.width / r).getD 0)⟩ (Spec.pb s av)) := by
+         Size.f32Max ⟨cl.width,
+           if ((rootKnownDimensions s av).orOpt (NS s av)).height.isSome then cl.height
+           else MaybeMath.fo_clamp (Num.fmax cl.height ((s.aspectRatio.map fun r => cl.width / r).getD 0))
+             (Spec.minS s av).height (Spec.maxS s av).height⟩ (Spec.pb s av)) := by
   have e1 := declared_transfer s av s.size
   have e2 := declared_transfer s av s.minSize
   have e3 := declared_plain s av s.maxSize
@@ -327,96 +330,127 @@ theorem scrollbarSize_eq (s : Style Rat) :
   cases s.overflow.x <;> cases s.overflow.y <;> rfl
 
 /-- hypotheses of the specification theorem that concern the aspect ratio -/
-structure ARHyp (s : Style Rat) (m : MeasureFn) (av : Size (AvailableSpace Rat)) (r : Rat) : Prop where
-  pos : 0 < r
+structure ARHyp (s : Style Rat) (m : MeasureFn) (av : Size (AvailableSpace Rat)) : Prop where
+  /-- block root: `max-size` has both axes definite or neither (the root transfers a single max axis, the leaf does not) -/
   maxBoth : s.display = .block → MaxBothOrNeither s av
+  /-- undeclared height: the width is not determined by the padding+border floor (the ratio divides the unfloored width) -/
   widthNotFloored : (Spec.pref s av).height = none → (Spec.pb s av).width ≤ Spec.widthUnfloored s m av
-  notFlatter : Spec.width s m av / r ≤ Spec.height s m av
 
 theorem hmax_of (s : Style Rat) (m : MeasureFn) (av : Size (AvailableSpace Rat))
-    (har : ∀ r, s.aspectRatio = some r → ARHyp s m av r) :
+    (har : s.aspectRatio ≠ none → ARHyp s m av) :
     s.display = .block → s.aspectRatio = none ∨ MaxBothOrNeither s av := by
   intro hd
   cases h : s.aspectRatio with
   | none => exact Or.inl rfl
-  | some r => exact Or.inr ((har r h).maxBoth hd)
+  | some r => exact Or.inr ((har (by rw [h]; exact Option.some_ne_none r)).maxBoth hd)
+
+/-- clamping twice around the ratio floor is clamping once (lattice distributivity) -/
+theorem clamp_fmax_clamp (n x : Rat) (mn mx : Option Rat) :
+    Spec.clampMinWins (Num.fmax (Spec.clampMinWins n mn mx) x) mn mx = Spec.clampMinWins (Num.fmax n x) mn mx := by
+  cases mn <;> cases mx <;> simp only [Spec.clampMinWins, fmax_def, fmin_def] <;> split_ifs <;> linarith
+
+/-- without a ratio the `0` floor of l.153 is invisible under a non-negative padding + border -/
+theorem clamp_fmax_zero (n pb : Rat) (mn mx : Option Rat) (hpb : 0 ≤ pb) :
+    Spec.floorAt (Spec.clampMinWins (Num.fmax (Spec.clampMinWins n mn mx) 0) mn mx) pb
+      = Spec.floorAt (Spec.clampMinWins n mn mx) pb := by
+  cases mn <;> cases mx <;> simp only [Spec.clampMinWins, Spec.floorAt, fmax_def, fmin_def] <;> split_ifs <;> linarith
+
+theorem Kof_none_of_or_none (blk : Bool) (P mn mx st : Option Rat) (pb : Rat)
+    (h : ((Kof blk P mn mx st pb).or ((Kof blk P mn mx st pb).or P)) = none) :
+    Kof blk P mn mx st pb = none ∧ P = none := by
+  cases hk : Kof blk P mn mx st pb <;> cases P <;> simp_all
 
 theorem leaf_size_eq (s : Style Rat) (m : MeasureFn) (av : Size (AvailableSpace Rat))
     (hpb : 0 ≤ (Spec.pb s av).height)
-    (har : ∀ r, s.aspectRatio = some r → ARHyp s m av r) :
+    (har : s.aspectRatio ≠ none → ARHyp s m av) :
     (let cl := Size.fo_clamp (((rootKnownDimensions s av).orOpt (NS s av)).unwrapOr
                   ((m Size.none (Spec.measureAvail s av)).add (insetOf s av).sumAxes)) (Spec.minS s av) (Spec.maxS s av)
-     Size.f32Max ⟨cl.width, Num.fmax cl.height ((s.aspectRatio.map fun r => cl.width / r).getD 0)⟩ (Spec.pb s av))
+     Size.f32Max ⟨cl.width,
+       if ((rootKnownDimensions s av).orOpt (NS s av)).height.isSome then cl.height
+       else MaybeMath.fo_clamp (Num.fmax cl.height ((s.aspectRatio.map fun r => cl.width / r).getD 0))
+         (Spec.minS s av).height (Spec.maxS s av).height⟩ (Spec.pb s av))
       = ⟨Spec.width s m av, Spec.height s m av⟩ := by
   have hmax := hmax_of s m av har
   have hst := stretch_none_of_not_block s av
   simp only [NS, rootKnown_eq s av hmax, Size.fo_clamp, Size.unwrapOr, Size.orOpt, Size.add, Size.f32Max, Rect.sumAxes,
     inset_w, inset_h, fo_clamp_eq]
-  -- width
   have hw := floor_clamp_Kof (isBlk s) (Spec.pref s av).width (Spec.minS s av).width (Spec.maxS s av).width
     (Spec.stretchWidth s av) (Spec.pb s av).width
     ((Spec.content s m av).width + ((Spec.pb s av).width + (Spec.gutter s).width)) hst
   have hh := floor_clamp_Kof (isBlk s) (Spec.pref s av).height (Spec.minS s av).height (Spec.maxS s av).height
     none (Spec.pb s av).height
     ((Spec.content s m av).height + ((Spec.pb s av).height + (Spec.gutter s).height)) (fun _ => rfl)
-  have hwle := clamp_Kof_le (isBlk s) (Spec.pref s av).width (Spec.minS s av).width (Spec.maxS s av).width
-    (Spec.stretchWidth s av) (Spec.pb s av).width
-    ((Spec.content s m av).width + ((Spec.pb s av).width + (Spec.gutter s).width)) hst
   have hweq := clamp_Kof_of_floor_inactive (isBlk s) (Spec.pref s av).width (Spec.minS s av).width
     (Spec.maxS s av).width (Spec.stretchWidth s av) (Spec.pb s av).width
     ((Spec.content s m av).width + ((Spec.pb s av).width + (Spec.gutter s).width)) hst
+  have hnone := Kof_none_of_or_none (isBlk s) (Spec.pref s av).height (Spec.minS s av).height (Spec.maxS s av).height
+    none (Spec.pb s av).height
   have hc : m Size.none (Spec.measureAvail s av) = Spec.content s m av := rfl
   rw [hc]
-  -- name the code's unfloored width and clamped height
+  -- name the code's unfloored width, the height's node size and the clamped height
   generalize hcW : Spec.clampMinWins
       (((Kof (isBlk s) (Spec.pref s av).width (Spec.minS s av).width (Spec.maxS s av).width (Spec.stretchWidth s av)
           (Spec.pb s av).width).or
         ((Kof (isBlk s) (Spec.pref s av).width (Spec.minS s av).width (Spec.maxS s av).width (Spec.stretchWidth s av)
           (Spec.pb s av).width).or (Spec.pref s av).width)).getD
         ((Spec.content s m av).width + ((Spec.pb s av).width + (Spec.gutter s).width)))
-      (Spec.minS s av).width (Spec.maxS s av).width = cW at hw hwle hweq ⊢
-  generalize hcH : Spec.clampMinWins
-      (((Kof (isBlk s) (Spec.pref s av).height (Spec.minS s av).height (Spec.maxS s av).height none
+      (Spec.minS s av).width (Spec.maxS s av).width = cW at hw hweq ⊢
+  generalize hNS : ((Kof (isBlk s) (Spec.pref s av).height (Spec.minS s av).height (Spec.maxS s av).height none
           (Spec.pb s av).height).or
         ((Kof (isBlk s) (Spec.pref s av).height (Spec.minS s av).height (Spec.maxS s av).height none
-          (Spec.pb s av).height).or (Spec.pref s av).height)).getD
-        ((Spec.content s m av).height + ((Spec.pb s av).height + (Spec.gutter s).height)))
-      (Spec.minS s av).height (Spec.maxS s av).height = cH at hh ⊢
-  show (⟨Num.fmax cW (Spec.pb s av).width,
-         Num.fmax (Num.fmax cH ((s.aspectRatio.map fun r => cW / r).getD 0)) (Spec.pb s av).height⟩ : Size Rat) = _
+          (Spec.pb s av).height).or (Spec.pref s av).height)) = nsH at hh hnone ⊢
   have hwidth : Num.fmax cW (Spec.pb s av).width = Spec.width s m av := hw
-  rw [hwidth, fmax_comm3]
-  congr 1
-  have hh' : Num.fmax cH (Spec.pb s av).height =
-      Spec.floorAt (Spec.clampMinWins ((Spec.pref s av).height.getD
-        ((Spec.content s m av).height + ((Spec.pb s av).height + (Spec.gutter s).height)))
-        (Spec.minS s av).height (Spec.maxS s av).height) (Spec.pb s av).height := by
-    simp only [Option.or_none] at hh
-    exact hh
-  rw [hh']
-  cases hr : s.aspectRatio with
-  | none =>
-    simp only [Option.map_none, Option.getD_none, Spec.height, hr]
-    exact fmax_of_le _ _ (le_trans hpb (floor_ge _ _))
-  | some r =>
-    have H := har r hr
-    simp only [Option.map_some, Option.getD_some]
-    have hcWle : cW / r ≤ Spec.width s m av / r := by
-      have : cW ≤ Spec.width s m av := hwle
-      exact div_le_div_of_nonneg_right this (le_of_lt H.pos)
+  simp only [Option.or_none] at hh
+  cases hns : nsH with
+  | some v =>
+    -- the height is determined before measuring: no ratio term at all
+    subst hns
+    simp only [Option.isSome_some, if_true, Option.getD_some] at hh ⊢
+    rw [hwidth]
+    congr 1
+    have hh' : Num.fmax (Spec.clampMinWins v (Spec.minS s av).height (Spec.maxS s av).height) (Spec.pb s av).height = _ := hh
+    rw [hh']
     cases hp : (Spec.pref s av).height with
-    | some p =>
-      have hnf := H.notFlatter
-      simp only [Spec.height, hr, hp, Option.getD_some] at hnf ⊢
-      exact fmax_of_le _ _ (le_trans hcWle hnf)
+    | some p => simp only [Spec.height, hp, Option.getD_some]
     | none =>
+      -- block root with a degenerate min ≥ max range: the clamp gives the minimum whatever the candidate
+      simp only [Spec.height, Option.getD_none]
+      have hK : (Kof (isBlk s) none (Spec.minS s av).height (Spec.maxS s av).height none
+          (Spec.pb s av).height) = some v := by
+        rw [hp] at hNS; simpa using hNS
+      revert hK
+      cases isBlk s <;> cases hmn : (Spec.minS s av).height <;> cases hmx : (Spec.maxS s av).height <;>
+        simp only [Kof, Kax, deg, fle_def, decide_eq_true_eq, Option.map_none, Option.or_none, Option.none_or,
+          if_true, Bool.false_eq_true, if_false, reduceCtorEq, false_implies, Option.map_none] <;>
+        (try (intro hK; cases hK)) <;> (try trivial)
+      rename_i mn mx
+      split_ifs with hle
+      · intro _
+        generalize ((Spec.content s m av).height + ((Spec.pb s av).height + (Spec.gutter s).height)) = n1
+        have e : ∀ n : Rat, Spec.clampMinWins n (some mn) (some mx) = mn := fun n => by
+          simp only [Spec.clampMinWins, fmax_def, fmin_def]; split_ifs <;> linarith
+        cases s.aspectRatio <;> simp only [e]
+      · intro hK; simp at hK
+  | none =>
+    subst hns
+    obtain ⟨-, hp⟩ := hnone rfl
+    simp only [Option.isSome_none, Bool.false_eq_true, if_false, Option.getD_none] at hh ⊢
+    rw [hwidth]
+    congr 1
+    simp only [Spec.height, hp, Option.getD_none]
+    cases hr : s.aspectRatio with
+    | none =>
+      simp only [Option.map_none, Option.getD_none]
+      exact clamp_fmax_zero _ _ _ _ hpb
+    | some r =>
+      have H := har (by rw [hr]; exact Option.some_ne_none r)
       have hwf := H.widthNotFloored hp
       have e1 : cW = Spec.widthUnfloored s m av := hweq hwf
       have e2 : Spec.width s m av = Spec.widthUnfloored s m av := floor_eq_of_le _ _ hwf
-      have hnf := H.notFlatter
-      simp only [Spec.height, hr, hp, Option.getD_none] at hnf ⊢
-      rw [e1, ← e2]
-      exact ar_auto_height _ _ _ _ _ hnf
+      simp only [Option.map_some, Option.getD_some]
+      rw [clamp_fmax_clamp, e1, ← e2]
+      rfl
+
 end C19L
 
 namespace C19L
